@@ -749,12 +749,23 @@ fn oracle_c07(fields: &[&str]) -> String {
 /// fields: abridged(0/1), ellps_0, ellps_1, dx, dy, dz (hex), geographic points (rad, rad, m, t)
 /// prints the largest disagreement in metres; the check compares it with the tolerance
 fn oracle_c07m(fields: &[&str]) -> String {
-    let abridged = fields[0] == "1";
+    // 0/1: the ellipsoids by name (full/abridged); 2/3: the first by name, the second by its differences da, df
+    let abridged = fields[0] == "1" || fields[0] == "3";
+    let by_differences = fields[0] == "2" || fields[0] == "3";
     let (e0, e1) = (fields[1], fields[2]);
     let (dx, dy, dz) = (parse_f(fields[3]), parse_f(fields[4]), parse_f(fields[5]));
     let tol = parse_f(fields[6]);
     let data = parse_data(fields[7]);
-    let mdef = format!("molodensky ellps_0={e0} ellps_1={e1} dx={dx} dy={dy} dz={dz}{}", if abridged { " abridged" } else { "" });
+    let mdef = if by_differences {
+        let (Ok(l), Ok(r)) = (Ellipsoid::named(e0), Ellipsoid::named(e1)) else {
+            return "oracle FAIL ellipsoid".to_string();
+        };
+        let da = r.semimajor_axis() - l.semimajor_axis();
+        let df = r.flattening() - l.flattening();
+        format!("molodensky ellps={e0} da={da} df={df} dx={dx} dy={dy} dz={dz}{}", if abridged { " abridged" } else { "" })
+    } else {
+        format!("molodensky ellps_0={e0} ellps_1={e1} dx={dx} dy={dy} dz={dz}{}", if abridged { " abridged" } else { "" })
+    };
     let cdef = format!("cart ellps={e0} | helmert x={dx} y={dy} z={dz} | cart inv ellps={e1}");
     let (_, m) = match apply_def(&mdef, Fwd, &data) {
         Ok(x) => x,
